@@ -121,6 +121,36 @@ UNIT = dict(
             dict(rule='R11', pat=r'fn authenticate_owner_password_r4<O>\(\s*&self,\s*doc: &Document,\s*owner_password: O,\s*\) -> Result<\(\), DecryptionError>\s*where\s*O: AsRef<\[u8\]>,\s*\{', to='fn authenticate_owner_password_r4(&self, doc: &Document, owner_password: &[u8]) -> (r: core::result::Result<(), DecryptionError>)\n    {', count=1, note='AsRef<[u8]> at &[u8]; result named'),
             dict(rule='R11', lit='self.authenticate_user_password_r4(doc, &result)', to='self.authenticate_user_password_r4(doc, result.as_slice())', count=1, note='&Vec<u8> as &[u8]'),
         ])),
+        dict(file=A, impl='PasswordAlgorithm', name='authenticate_user_password_r6', rules=dict(no_sink=True, raw_sig=True, pre_subst=[
+            dict(rule='R11', pat=r'fn authenticate_user_password_r6<U>\(\s*&self,\s*user_password: U,\s*\) -> Result<\(\), DecryptionError>\s*where\s*U: AsRef<\[u8\]>,\s*\{', to='fn authenticate_user_password_r6(&self, user_password: &[u8]) -> (r: core::result::Result<(), DecryptionError>)\n    {', count=1, note='AsRef<[u8]> at &[u8]; result named'),
+            dict(rule='R11', lit='let mut user_password = user_password.as_ref();', to='let mut user_password = user_password;', count=1, note='AsRef<[u8]> at &[u8]'),
+            dict(rule='R5', pat=r'&([\w.]+)\[(\d+)\.\.\]\[\.\.(\d+)\]', to=r'subslice(\1.as_slice(), \2, \3)', note='&v[a..][..n] sub-slice shim'),
+            dict(rule='R5', lit='user_password = &user_password[..127];', to='user_password = prefix(user_password, 127);', count=1, note='sub-slice shim'),
+        ], subst=[
+            dict(rule='R5', pat=r'let mut input = Vec::with_capacity\([^;]*\);', to='let mut input: Vec<u8> = Vec::new();', count=1, note='capacity hint dropped (not observable; the sum of two slice lengths cannot overflow)'),
+            dict(rule='R5', lit='self.compute_hash(user_password, user_validation_salt, None)? != hashed_user_password', to='!slice_eq_vec(&self.compute_hash(user_password, user_validation_salt, None)?, hashed_user_password)', count=1, note='Vec<u8> != &[u8] comparison shim'),
+        ])),
+        dict(file=A, impl='PasswordAlgorithm', name='authenticate_owner_password_r6', rules=dict(no_sink=True, raw_sig=True, pre_subst=[
+            dict(rule='R11', pat=r'fn authenticate_owner_password_r6<O>\(\s*&self,\s*owner_password: O,\s*\) -> Result<\(\), DecryptionError>\s*where\s*O: AsRef<\[u8\]>,\s*\{', to='fn authenticate_owner_password_r6(&self, owner_password: &[u8]) -> (r: core::result::Result<(), DecryptionError>)\n    {', count=1, note='AsRef<[u8]> at &[u8]; result named'),
+            dict(rule='R11', lit='let mut owner_password = owner_password.as_ref();', to='let mut owner_password = owner_password;', count=1, note='AsRef<[u8]> at &[u8]'),
+            dict(rule='R5', pat=r'&([\w.]+)\[(\d+)\.\.\]\[\.\.(\d+)\]', to=r'subslice(\1.as_slice(), \2, \3)', note='&v[a..][..n] sub-slice shim'),
+            dict(rule='R5', lit='owner_password = &owner_password[..127];', to='owner_password = prefix(owner_password, 127);', count=1, note='sub-slice shim'),
+        ], subst=[
+            dict(rule='R5', pat=r'let mut input = Vec::with_capacity\([^;]*\);', to='let mut input: Vec<u8> = Vec::new();', count=1, note='capacity hint dropped (not observable; the sum of two slice lengths cannot overflow)'),
+            dict(rule='R5', lit='self.compute_hash(owner_password, owner_validation_salt, Some(&self.user_value))? != hashed_owner_password', to='!slice_eq_vec(&self.compute_hash(owner_password, owner_validation_salt, Some(self.user_value.as_slice()))?, hashed_owner_password)', count=1, note='Vec<u8> != &[u8] comparison shim; &Vec<u8> as &[u8]'),
+        ])),
+        dict(file=A, impl='PasswordAlgorithm', name='compute_file_encryption_key_r6', rules=dict(no_sink=True, raw_sig=True, pre_subst=[
+            dict(rule='R11', pat=r'fn compute_file_encryption_key_r6<P>\(\s*&self,\s*password: P,\s*\) -> Result<Vec<u8>, DecryptionError>\s*where\s*P: AsRef<\[u8\]>,\s*\{', to='fn compute_file_encryption_key_r6(&self, password: &[u8]) -> (r: core::result::Result<Vec<u8>, DecryptionError>)\n    {', count=1, note='AsRef<[u8]> at &[u8]; result named'),
+            dict(rule='R11', lit='let mut password = password.as_ref();', to='let mut password = password;', count=1, note='AsRef<[u8]> at &[u8]'),
+            dict(rule='R5', pat=r'&([\w.]+)\[(\d+)\.\.\]\[\.\.(\d+)\]', to=r'subslice(\1.as_slice(), \2, \3)', note='&v[a..][..n] sub-slice shim'),
+            dict(rule='R5', lit='password = &password[..127];', to='password = prefix(password, 127);', count=1, note='sub-slice shim'),
+            dict(rule='R10', pat=r'let mut key = \[0u8; 32\];\s*key\.copy_from_slice\(&hash\);\s*let iv = \[0u8; 16\];\s*let mut (\w+) = self\.(\w+)\.clone\(\);\s*let mut decryptor = Aes256CbcDec::new\(&key\.into\(\), &iv\.into\(\)\);\s*for block in \w+\.chunks_exact_mut\(16\) \{\s*decryptor\.decrypt_block_mut\(block\.into\(\)\);\s*\}', to=r'let \1 = aes256_cbc_zero_iv_decrypt(&hash, self.\2.as_slice());', count=2, note='RustCrypto block-mode idiom (32-byte key copied from the hash, zero IV, decrypt every 16-byte block in place) as one call of an uninterpreted AES-256-CBC-no-padding decryption: the idiom itself is dropped from the verified text'),
+        ], subst=[
+            dict(rule='R5', lit='self.compute_hash(password, owner_validation_salt, Some(&self.user_value))? == hashed_owner_password', to='slice_eq_vec(&self.compute_hash(password, owner_validation_salt, Some(self.user_value.as_slice()))?, hashed_owner_password)', count=1, note='Vec<u8> == &[u8] comparison shim'),
+            dict(rule='R5', lit='self.compute_hash(password, owner_key_salt, Some(&self.user_value))', to='self.compute_hash(password, owner_key_salt, Some(self.user_value.as_slice()))', count=1, note='&Vec<u8> as &[u8]'),
+            dict(rule='R5', lit='self.compute_hash(password, user_validation_salt, None)? == hashed_user_password', to='slice_eq_vec(&self.compute_hash(password, user_validation_salt, None)?, hashed_user_password)', count=1, note='Vec<u8> == &[u8] comparison shim'),
+            dict(rule='R5', lit='self.validate_permissions(&user_encrypted)', to='self.validate_permissions(user_encrypted.as_slice())', optional=True, note='&Vec<u8> as &[u8]'),
+        ])),
         dict(file=E, impl='Permissions', name='p_value', rules=dict(no_sink=True)),
     ],
 )
